@@ -89,7 +89,9 @@ def report_monitor(ctx, tool, h, fails, do_shrink=True):
             continue
         seen.add(key)
         hh, ff = h, f
-        if ctx.match_known(cls, "monitor") is None and do_shrink:
+        if ctx.match_known(cls, "monitor") is None and do_shrink and ctx.cov.get("_shrunk", 0) < 2:
+            # shrinking re-executes the history once per deleted op: only the first failing inputs are minimised
+            ctx.cov["_shrunk"] = ctx.cov.get("_shrunk", 0) + 1
             hh = shrink(ctx, tool, h)
             fs2 = unknown_failures(ctx, hh)
             if fs2:
@@ -176,6 +178,7 @@ def run(ctx, replay_inputs=None):
             extracted_sweep(ctx, tool)
     seen = ctx.cov.pop("_seen", set())
     ctx.cov.pop("_shard", None)
+    ctx.cov.pop("_shrunk", None)
     ctx.cov["distinct_nontrivial"] = len(seen)
     ctx.cov["rule"] = ("operation histories (open/write/close/update/rename/removeold/removeall/touch, 5-40 ops quick, -60/-200 thorough) over 4-6 DAG "
                        "names drawn from {plain, space, dots, shared prefixes a/ab/a.b, _c suffix, glob metacharacters, stamp-like substring}, start stamps "
